@@ -338,7 +338,11 @@ func c17Lengths(c *hx.Ctx, need int) []int {
 	if need <= 0 {
 		return []int{0, 1}
 	}
-	ls := []int{0, need - 1, need, need + 1}
+	ls := []int{0, need, need + 1}
+	// every byte offset inside the last pixel (and a little before it): need-1 … need-8
+	for k := 1; k <= 8 && k < need; k++ {
+		ls = append(ls, need-k)
+	}
 	if need > 2 {
 		ls = append(ls, 1, need/2, c.R.Range(1, need-1))
 	}
@@ -459,6 +463,22 @@ func c17ReprJ2k(n int, a []int) (bool, string) {
 	return n >= a[0]*a[1]*a[2]*c17Bps(a[3]), "j2k-short-buffer"
 }
 
+// c17TileUnaligned: more than one tile, and some tile satisfies predicate (A) or (B) of C19
+// (c19CBIndexOffset / c19GeometryDiffers in c19.go) for the requested levels, code-block and precinct sizes.
+func c17TileUnaligned(a []int) bool {
+	tw, th := a[4], a[5]
+	if tw <= 0 || tw > a[0] {
+		tw = a[0]
+	}
+	if th <= 0 || th > a[1] {
+		th = a[1]
+	}
+	if tw >= a[0] && th >= a[1] {
+		return false // single tile
+	}
+	return c19CBIndexOffset(a[0], a[1], tw, th, a[6], a[8], a[9], a[10], a[11]) || c19GeometryDiffers(a[0], a[1], tw, th, a[6])
+}
+
 func c17J2kParams(a []int) *jpeg2000.EncodeParams {
 	p := jpeg2000.DefaultEncodeParams(a[0], a[1], a[2], a[3], false)
 	p.TileWidth, p.TileHeight, p.NumLevels, p.Lossless = a[4], a[5], a[6], a[7] != 0
@@ -524,9 +544,10 @@ func c17J2kOne(c *hx.Ctx, n int, a []int) {
 			cl := "j2k-misdeclared"
 			if !rep {
 				cl = clause
-			} else if derr != nil && !dp && ((a[4] > 0 && a[4] < a[0]) || (a[5] > 0 && a[5] < a[1])) {
-				// a multi-tile stream the library's own decoder rejects: the tiled-geometry defects of C19
-				// (code-block index / sub-band split disagree between encoder and decoder for unaligned tiles)
+			} else if derr != nil && !dp && c17TileUnaligned(a) {
+				// a multi-tile stream the library's own decoder rejects, AND one of the two C19 tile-geometry
+				// predicates holds (decoder numbers code-blocks from the canvas origin / encoder cuts sub-bands
+				// with tile-local splits): the known C19 defects. A failing ALIGNED tiling stays `j2k-misdeclared`.
 				cl = "j2k-tiled-stream-undecodable"
 			}
 			act := fmt.Sprintf("decoded %dx%d c=%d bd=%d err=%v", g.w, g.h, g.c, g.bd, derr)
@@ -573,6 +594,16 @@ func c17J2k(c *hx.Ctx) {
 			a := append([]int{}, base...)
 			a[8], a[9] = cbw, cbh
 			c17J2kOne(c, need(a), a)
+		}
+	}
+	// one side a power of two, the other one not (and both not): each side is checked on its own
+	for _, good := range []int{4, 8, 16, 32, 64} {
+		for _, bad := range []int{5, 6, 7, 12, 24, 33, 48, 63} {
+			for _, pair := range [][2]int{{good, bad}, {bad, good}, {bad, bad}} {
+				a := append([]int{}, base...)
+				a[8], a[9] = pair[0], pair[1]
+				c17J2kOne(c, need(a), a)
+			}
 		}
 	}
 	for _, tw := range []int{-1, 0, 8} {
@@ -967,7 +998,8 @@ func c17CodecCase(c *hx.Ctx, name string, cd codec.Codec, decode func([]byte) (c
 		cl := "codec-" + name + "-panic"
 		switch {
 		case ptag == "typed-nil" && name == "j2klossless":
-			// residue after 73f59a6: extractLosslessMCTParameters still calls GetParameter on the typed nil
+			// was the residue after 73f59a6 (extractLosslessMCTParameters queried the typed nil); fixed by 81930d5:
+			// the class is kept so that a regression is reported under its own name
 			cl = "codec-j2klossless-typed-nil-mct-panic"
 		case ptag == "typed-nil":
 			cl = "codec-typed-nil-parameters-panic"
@@ -1094,6 +1126,7 @@ func c17CodecLevel(c *hx.Ctx) {
 func c17Rle(c *hx.Ctx) {
 	type g struct{ w, h, ba, spp, pl int }
 	cases := []g{{1, 1, 8, 1, 0}, {2, 2, 16, 3, 0}, {2, 1, 32, 3, 1}, // ≤ 15 planes
+		{3, 2, 16, 1, 0}, {3, 2, 16, 1, 1}, {2, 2, 16, 3, 1}, {3, 1, 32, 1, 0}, {2, 3, 32, 3, 0}, {2, 2, 24, 1, 0}, {5, 1, 16, 3, 0},
 		{1, 1, 32, 4, 0}, {1, 1, 64, 2, 0}, {2, 2, 8, 16, 1}, {1, 1, 128, 1, 0}, {3, 1, 40, 3, 0}, {1, 1, 8, 15, 0}, {1, 1, 8, 17, 0},
 		{0, 3, 8, 1, 0}, {3, 0, 8, 1, 0}, {0, 0, 32, 4, 0}, {1, 1, 0, 1, 0}, {1, 1, 8, 0, 0}}
 	for _, x := range cases {
@@ -1103,7 +1136,15 @@ func c17Rle(c *hx.Ctx) {
 			planes = 8192 * x.spp
 		}
 		native := planes * x.w * x.h
-		lens := []int{native, native - 1, 1, 0, native + 3}
+		lens := []int{native, 1, 0, native + 3}
+		for k := 1; k <= planes && k <= 16 && k < native; k++ { // every byte offset inside the last pixel
+			lens = append(lens, native-k)
+		}
+		if x.pl == 1 && x.w*x.h > 0 { // planar: also inside the last sample of every plane but the last
+			for pl := 1; pl < planes && pl <= 15; pl++ {
+				lens = append(lens, pl*x.w*x.h-1, pl*x.w*x.h)
+			}
+		}
 		for _, n := range lens {
 			if n < 0 || n > 1<<16 {
 				continue
